@@ -210,6 +210,14 @@ def jwk_faults(jwk: dict, rng: Rng):
                 if not (mask >> i) & 1:
                     del d[c]
             yield ("partial-crt", "only CRT members %r kept" % [c for i, c in enumerate(CRT) if (mask >> i) & 1], d)
+        # the private exponent stripped, factors / CRT members left behind: not a public key, not a private key
+        for mask in (31, 1, 3, 16, 21):
+            d = copy.deepcopy(jwk)
+            d.pop("d", None)
+            for i, c in enumerate(CRT):
+                if not (mask >> i) & 1:
+                    del d[c]
+            yield ("partial-crt", "d removed, CRT members %r left" % [c for i, c in enumerate(CRT) if (mask >> i) & 1], d)
     if kty == "EC":
         for name in ("x", "y"):
             raw = b64.dec(jwk[name])
